@@ -14,7 +14,7 @@ use crate::util::*;
 pub const PROP: Prop = Prop {
     id: "C08",
     level: "exploration",
-    rule: "(round 8: nil and t followed by each character that looks like a delimiter but continues a name in this reader) (rounds 6-7: with_keyword_syntaxes given lists with repeated entries; 130 and 300 copies of 37 tokens - quote shorthands, keywords, nil/t, empty and one-element lists, vectors and byte vectors, characters, strings, numbers - in one list, one vector, a nested list and a stream read by one Parser must each read like the token alone) (every input is also read through the datum API, which has to agree; the library constructors Options::default(), elisp(), new() and plain from_str are compared with the documented option sets built field by field; radix-prefixed literals and near misses, short and longer than 64 bits, are part of the corpus) ALL 1536 parser option sets (exhaustive in both tiers) x a token corpus covering every token class with its near misses (nil nilx NIL t tt; :a a: :a: :: : #:a #:; [ ] mixes and mismatches; ?a ?\\( ; #%a; numeric literals 7 1.5 1e3 007 +5; digit-initial non-literals 1+ 1- 1/2 1.5.6 0x10 12ab 1e; sign tokens + - -a ->x ...; strings whose reading differs between the syntaxes) x 11 syntactic positions (top level, list head, after a dot, vector element, bracket element, directly before ')' and ']', inside each of the four quote shorthands); oracle: (1) a declarative token classifier written from the option documentation (Value / Error / Unspecified), (2) shorthand expansion, (3) non-interference: all option sets that agree on the options an input syntactically exercises must give identical results; the thorough tier adds generated tokens from the class grammars; non-trivial = anything but a plain alphabetic symbol at top level; distinct by (input, projected option set)",
+    rule: "(round 9: complete numeric literals with a colon at either end; a digit-initial name with a colon is not a number under any option set) (round 8: nil and t followed by each character that looks like a delimiter but continues a name in this reader) (rounds 6-7: with_keyword_syntaxes given lists with repeated entries; 130 and 300 copies of 37 tokens - quote shorthands, keywords, nil/t, empty and one-element lists, vectors and byte vectors, characters, strings, numbers - in one list, one vector, a nested list and a stream read by one Parser must each read like the token alone) (every input is also read through the datum API, which has to agree; the library constructors Options::default(), elisp(), new() and plain from_str are compared with the documented option sets built field by field; radix-prefixed literals and near misses, short and longer than 64 bits, are part of the corpus) ALL 1536 parser option sets (exhaustive in both tiers) x a token corpus covering every token class with its near misses (nil nilx NIL t tt; :a a: :a: :: : #:a #:; [ ] mixes and mismatches; ?a ?\\( ; #%a; numeric literals 7 1.5 1e3 007 +5; digit-initial non-literals 1+ 1- 1/2 1.5.6 0x10 12ab 1e; sign tokens + - -a ->x ...; strings whose reading differs between the syntaxes) x 11 syntactic positions (top level, list head, after a dot, vector element, bracket element, directly before ')' and ']', inside each of the four quote shorthands); oracle: (1) a declarative token classifier written from the option documentation (Value / Error / Unspecified), (2) shorthand expansion, (3) non-interference: all option sets that agree on the options an input syntactically exercises must give identical results; the thorough tier adds generated tokens from the class grammars; non-trivial = anything but a plain alphabetic symbol at top level; distinct by (input, projected option set)",
     assumptions: &[
         "the classifier returns Unspecified where the documentation is silent or two enabled options both claim a token (e.g. :a: with prefix and postfix keywords, a lone ':'); nothing but non-interference is asserted there",
         "'exercised options' are computed syntactically and over-approximate the true dependencies",
